@@ -566,13 +566,13 @@ func writeIgnoreScenario(k *Walker) {
 	// ignored things and near misses
 	w.Write(d+"/o1", k.content())
 	w.Write(d+"/deep/o2", k.content())
-	w.Write("sub"+d+"/o", k.content())  // near miss: name contains the directory name
-	w.Write(d+"x/o", k.content())       // near miss
-	w.Write("a"+e, k.content())         // ignored by extension
-	w.Write("dir/b"+e, k.content())     // ignored by extension, nested
-	w.Write("a"+e+"ra", k.content())    // near miss: a.extra
-	w.Write("x.goit/f", k.content())    // near miss of Goit's own directory
-	w.Write(".goitx/g", k.content())    // near miss
+	w.Write("sub"+d+"/o", k.content()) // near miss: name contains the directory name
+	w.Write(d+"x/o", k.content())      // near miss
+	w.Write("a"+e, k.content())        // ignored by extension
+	w.Write("dir/b"+e, k.content())    // ignored by extension, nested
+	w.Write("a"+e+"ra", k.content())   // near miss: a.extra
+	w.Write("x.goit/f", k.content())   // near miss of Goit's own directory
+	w.Write(".goitx/g", k.content())   // near miss
 	w.Write("keep.txt", k.content())
 }
 
@@ -624,15 +624,15 @@ func runC13(c *core.Ctx) {
 
 func init() {
 	register(&Prop{ID: "C07", Level: "exploration",
-		Rule: "(a) bounded-exhaustive: every conflict-free subset P of a 28-path universe built around the byte order of '/' (d, d-old, d.c, 'd d', d0, ad, d/x, test/, test.c, test-data, a(b, [x]/y …) with |P|<=2 (quick: seeded 45% sample of pairs + all singletons) / <=3 (thorough: all) committed as HEAD, then one single-path mutation (add/remove/modify/none) -> status, commit, status, commit; (b) seeded random histories with add/rm/restore --staged/reset between commits; oracle: staged-changes block == independently computed diff(index, HEAD snapshot) with labels, block absent right after a commit, commit refused iff index == HEAD snapshot; distinct = (HEAD name-shape, mutation kind / label set, sibling-sort relation)",
-		Mons:  func() []core.Monitor { return []core.Monitor{C07Mon{}} },
-		Run:   runC07,
+		Rule:   "(a) bounded-exhaustive: every conflict-free subset P of a 28-path universe built around the byte order of '/' (d, d-old, d.c, 'd d', d0, ad, d/x, test/, test.c, test-data, a(b, [x]/y …) with |P|<=2 (quick: seeded 45% sample of pairs + all singletons) / <=3 (thorough: all) committed as HEAD, then one single-path mutation (add/remove/modify/none) -> status, commit, status, commit; (b) seeded random histories with add/rm/restore --staged/reset between commits; oracle: staged-changes block == independently computed diff(index, HEAD snapshot) with labels, block absent right after a commit, commit refused iff index == HEAD snapshot; distinct = (HEAD name-shape, mutation kind / label set, sibling-sort relation)",
+		Mons:   func() []core.Monitor { return []core.Monitor{C07Mon{}} },
+		Run:    runC07,
 		Floors: []core.Floor{{Key: "C07.status-set", Min: 500}, {Key: "C07.nothing-refused", Min: 150}, {Key: "C07.difference-accepted", Min: 150}},
 	})
 	register(&Prop{ID: "C13", Level: "exploration",
-		Rule: "seeded histories of edits (new, modify, rewrite-identical, mtime-only, delete, rmdir; depth<=4) and add/rm/commit over name sets with spaces/non-ASCII/metacharacters, half of them with a .goitignore of 'name/' and '*.ext' lines plus near-miss names (subname/, a.extra, x.goit/f, .goitx/g); after every `status` the sections 'Changes not staged' and 'Untracked files' are compared with sets computed from the byte snapshot alone; metamorphic: identical-bytes rewrite / mtime-only change => identical output; distinct = (modified?, deleted?, untracked?, ignore present, depth, has-commit) classes",
-		Mons:  func() []core.Monitor { return []core.Monitor{C13Mon{}} },
-		Run:   runC13,
+		Rule:   "seeded histories of edits (new, modify, rewrite-identical, mtime-only, delete, rmdir; depth<=4) and add/rm/commit over name sets with spaces/non-ASCII/metacharacters, half of them with a .goitignore of 'name/' and '*.ext' lines plus near-miss names (subname/, a.extra, x.goit/f, .goitx/g); after every `status` the sections 'Changes not staged' and 'Untracked files' are compared with sets computed from the byte snapshot alone; metamorphic: identical-bytes rewrite / mtime-only change => identical output; distinct = (modified?, deleted?, untracked?, ignore present, depth, has-commit) classes",
+		Mons:   func() []core.Monitor { return []core.Monitor{C13Mon{}} },
+		Run:    runC13,
 		Floors: []core.Floor{{Key: "C13.untracked", Min: 800}, {Key: "C13.metamorphic-identical-bytes", Min: 30}, {Key: "C13.metamorphic-mtime", Min: 30}},
 	})
 }
